@@ -119,5 +119,14 @@ _db("C08", "I/O failures are reported, never swallowed; nothing acknowledged is 
 _db("C15", "Corrupted files are detected, never served as data", ["c15:"],
     "Lean 4 proof for the CRC-protected spans + exhaustive single-byte corruption of small images", "under construction", [], [], comps=("c15",))
 
+_db("C05", "Concurrent operations are linearizable", ["c05:", "c09:"],
+    "Lean 4 protocol proof + directed schedules through scheduling hooks + stress with per-key register check", "under construction", [], [], comps=("c05",))
+_db("C06", "No reader ever observes part of a batch", ["c06:", "c09:"],
+    "Lean 4 protocol proof (sequence publication) + directed schedules parking the writer at every stage", "under construction", [], [], comps=("c06",))
+_db("C09", "Every operation terminates; the background worker never dies", ["c09:"],
+    "Lean 4 termination/progress proofs + watchdog scenarios", "under construction", [], [], comps=("c09",))
+_db("C17", "One owner at a time", ["c17:"],
+    "Lean 4 lock-protocol proof + racing open/close/destroy on the disk-backed filesystem", "under construction", [], [], comps=("c17",))
+
 # properties whose check is registered in MANIFEST.json
 CLAIMED = ["C04", "C12", "C13", "C14"]
